@@ -848,7 +848,7 @@ def inventory():
         """potentially panicking constructs in non-test library code"""
         sites = []
         for rel in all_source_files():
-            if rel.startswith("bin/") or rel.endswith("display.rs"):
+            if rel.startswith("bin/"):
                 continue
             toks = load(rel)
             encl = enclosing_fn_map(toks)
@@ -883,7 +883,7 @@ def inventory():
         for site in sites:
             counts[site] = counts.get(site, 0) + 1
         items = [f"({lean_str(k)}, {v})" for k, v in sorted(counts.items())]
-        return ("/-- every construct that can panic, in non-test, non-Display library code: (file : enclosing fn : construct, occurrences) -/\n"
+        return ("/-- every construct that can panic, in non-test library code (Display impls included): (file : enclosing fn : construct, occurrences) -/\n"
                 "def panicSites : List (String × Nat) := " + lean_list(items, 2) + "\n")
 
     out.append(guarded("panicSites", "List (String × Nat)", panics))
